@@ -222,9 +222,8 @@ where
         fn visit_class_element(&mut self, node: &'ast ClassElement) -> ControlFlow<Self::BreakTy> {
             match node {
                 ClassElement::MethodDefinition(m) => {
-                    if self.0 == ContainsSymbol::DirectEval {
-                        return ControlFlow::Continue(());
-                    }
+                    // A direct `eval` in the method can see the bindings of every enclosing scope.
+                    self.visit_contains_eval(m.contains_direct_eval())?;
 
                     if let ClassElementName::PropertyName(name) = m.name() {
                         name.visit_with(self)
@@ -233,8 +232,30 @@ where
                     }
                 }
                 ClassElement::FieldDefinition(field)
-                | ClassElement::StaticFieldDefinition(field) => field.name.visit_with(self),
-                _ => ControlFlow::Continue(()),
+                | ClassElement::StaticFieldDefinition(field) => {
+                    field.name.visit_with(self)?;
+                    if self.0 == ContainsSymbol::DirectEval
+                        && let Some(initializer) = field.initializer()
+                    {
+                        self.visit_expression(initializer)?;
+                    }
+                    ControlFlow::Continue(())
+                }
+                ClassElement::PrivateFieldDefinition(field)
+                | ClassElement::PrivateStaticFieldDefinition(field) => {
+                    if self.0 == ContainsSymbol::DirectEval
+                        && let Some(initializer) = field.initializer()
+                    {
+                        self.visit_expression(initializer)?;
+                    }
+                    ControlFlow::Continue(())
+                }
+                ClassElement::StaticBlock(block) => {
+                    if self.0 == ContainsSymbol::DirectEval {
+                        block.body.visit_with(self)?;
+                    }
+                    ControlFlow::Continue(())
+                }
             }
         }
 
@@ -243,9 +264,8 @@ where
             node: &'ast PropertyDefinition,
         ) -> ControlFlow<Self::BreakTy> {
             if let PropertyDefinition::MethodDefinition(m) = node {
-                if self.0 == ContainsSymbol::DirectEval {
-                    return ControlFlow::Continue(());
-                }
+                // A direct `eval` in the method can see the bindings of every enclosing scope.
+                self.visit_contains_eval(m.contains_direct_eval())?;
 
                 if self.0 == ContainsSymbol::MethodDefinition {
                     return ControlFlow::Break(());
